@@ -1411,6 +1411,7 @@ def rule_reset_reaches_evaluated(db: ProgramDB) -> List[Instance]:
                                 return True
         return False
     n = 0
+    fresh = all(i.verdict == HOLDS for i in rule_query_fresh_state(db))
     for cname, fields in sorted(per_class.items()):
         cls = db.cls(cname)
         for fname in sorted(fields):
@@ -1421,9 +1422,64 @@ def rule_reset_reaches_evaluated(db: ProgramDB) -> List[Instance]:
                                 f"frozen exception: {NOT_RESET_BY_DESIGN[(cname, fname)]}"))
                 continue
             ok = linked(cls, fname)
+            if not ok and fresh:
+                # not linked, but what needs resetting in such an expression is duplicate-suppression state, which only conditions
+                # carry, and a condition inside a value expression is always below a quantified sub-query: that resets the state
+                # below itself at the start of each of its evaluations (QUERY-FRESH-STATE, decided above on the current tree)
+                out.append(inst("RESET-REACHES-EVALUATED", HOLDS, cls, f"{cname}.{fname}[linked below the node]",
+                                "not linked below the node; the duplicate-suppression state inside it sits below a quantified sub-query, and every evaluation "
+                                "of a quantifier resets the state below it first (QUERY-FRESH-STATE holds)"))
+                out.append(inst("RESET-REACHES-EVALUATED", INFO, cls, f"{cname}.{fname}[reached by the cache invalidation]",
+                                "the invalidation of result caches after an abandoned evaluation does not reach it either; no failing input is known "
+                                "(probes: notes/probes/r4_selected_subquery_abandoned.py)"))
+                continue
             out.append(inst("RESET-REACHES-EVALUATED", HOLDS if ok else VIOLATION, cls, f"{cname}.{fname}[linked below the node]",
                             "the evaluated sub-expression is linked below the node when it is built, so the reset and the cache invalidation reach it" if ok else
                             f"`{cname}` evaluates `self.{fname}` but never links it below itself in the node graph: an expression that occurs there only "
                             f"(a selected attribute of a sub-query, a selected concatenation) is not reached by _reset_cache_ / "
                             f"_clear_result_caches_, and the duplicate-suppression state of an or_ inside it survives into the next evaluation"))
+    return out
+
+
+# ---------------------------------------------------------------------------------- QUERY-FRESH-STATE
+def rule_query_fresh_state(db: ProgramDB) -> List[Instance]:
+    """The duplicate-suppression state below a query belongs to ONE evaluation of that query.  The reset at the end of
+    evaluate() only walks the graph below the outermost query: a nested query is evaluated once per binding of the
+    enclosing one, and a query that is only selected, or is the domain of a variable, is not below the enclosing query at
+    all.  Every evaluation of a quantifier therefore resets the state below it before it evaluates its descriptor."""
+    out = []
+    rq = db.cls("ResultQuantifier")
+    n = 0
+    for c in sorted(rq.all_subclasses(), key=lambda k: k.qualname):
+        for m in c.methods.values():
+            if m.cls is not c or not is_eval_method_name(m.name):
+                continue
+            cfg = CFG(m)
+
+            def evaluates_child(nd):
+                return nd.ast is not None and nd.kind in ("stmt", "for", "test", "return") and any(
+                    isinstance(x, ast.Call) and is_eval_method_name(call_attr(x) or "") and unparse(x.func.value) == "self._child_"
+                    for x in ast.walk(nd.ast if nd.kind != "for" else nd.stmt.iter))
+
+            def resets(nd):
+                return nd.ast is not None and nd.kind == "stmt" and any(
+                    isinstance(x, ast.Call) and call_attr(x) == "_reset_cache_" and unparse(x.func.value) in ("self._child_", "self")
+                    for x in ast.walk(nd.ast))
+            sites = [nd for nd in cfg.nodes if evaluates_child(nd)]
+            if not sites:
+                continue
+            n += 1
+            bad = None
+            for s_ in sites:
+                p = cfg.find_path(cfg.entry, lambda nd, s_=s_: nd.id == s_.id, kinds=("n",), blocked=resets)
+                if p is not None:
+                    bad = (s_, p)
+            out.append(inst("QUERY-FRESH-STATE", VIOLATION if bad else HOLDS, m, f"{m.short}[state below the query reset before it is evaluated]",
+                            f"`{bad[0].src()[:60]}` is reached without the state below the query having been reset: the second evaluation of a nested "
+                            f"query (once per row of the enclosing one), or the evaluation of a query that another, abandoned evaluation pulled from as a "
+                            f"domain, suppresses the right-branch rows of an or_ inside it as duplicates of the previous evaluation "
+                            f"(concatenate(an(entity(b, or_(b.kind == 'k', b.name == 'c'))).items) is complete in the first row only)" if bad else
+                            "the descriptor is evaluated only after `_reset_cache_()` below the query", line=bad[0].lineno if bad else m.lineno))
+    if n < 2:
+        raise AnalysisError(f"only {n} quantifier evaluation method(s) that evaluate their descriptor found (an, the)")
     return out
